@@ -19,7 +19,7 @@ RULE = (
 )
 ASSUMPTIONS = [
     "gate parameters are Python floats (numpy scalars are outside the property's domain)",
-    "register width <= 6, gate arity <= 4 (dense 2^n reference)",
+    "register width <= 6, gate arity <= 4 (dense 2^n reference); widths 9-11 through a state-vector reference (wide_apply)",
     "zero-length Circuit.to_unitary() (TypeError from reduce) is a refusal and not asserted",
 ]
 
@@ -184,6 +184,53 @@ def o_symbolic(spec):
     if len(sym_ops) < len(spec["ops"]):
         cl.add("mixed_numeric_symbolic")
     return {"classes": cl, "nontrivial": "symbolic_gate_on_permuted_tuple" in cl}
+
+
+# ------------------------------------------------------------------ (c3) wide registers (state-vector reference)
+
+
+@st.composite
+def wide_specs(draw, tier):
+    n = draw(st.sampled_from([9, 9, 10] if tier == "quick" else [9, 10, 10, 11]))
+    ops = []
+    for _ in range(draw(st.integers(1, 3))):
+        g = draw(cgen.gate_specs(maxq=3, max_mods=1, mods=("dag", "c"), custom=True))
+        k = cgen.gate_arity(g)
+        # index tuples that span the register: low and high qubits together, in any order
+        lo, hi = draw(st.sampled_from([0, 0, 0, 1, 2])), draw(st.sampled_from([n - 1, n - 1, n - 1, n - 2, n - 3]))
+        rest = [q for q in range(n) if q not in (lo, hi)]
+        q = [lo, hi] + list(draw(st.permutations(rest)))[: max(0, k - 2)]
+        q = list(draw(st.permutations(q[:k]))) if k >= 2 else [draw(st.sampled_from([lo, hi, rest[0]]))]
+        g["q"] = q
+        ops.append(g)
+    return {"n": n, "width": n, "ops": ops, "sseed": draw(st.one_of(st.integers(0, 10 ** 6), st.integers(-512, -1)))}
+
+
+def o_wide(spec):
+    from orquestra.quantum.runners import SymbolicSimulator
+
+    n = spec["n"]
+    c = cgen.build_circuit(spec)
+    init = cgen.state_from_seed(n, spec["sseed"])
+    want = init.copy()
+    for o, op in zip(spec["ops"], c.operations):
+        want = ref.embed_apply(ref.npm(op.gate.matrix), o["q"], n, want)
+    state = init.copy()
+    for op in c.operations:
+        state = must(lambda: op.apply(state), "GateOperation.apply")
+    state = np.asarray(state, dtype=complex).reshape(-1)
+    require(ref.close(state, want), lambda: f"{n} qubits: op-by-op application differs from the gates placed on their qubits, max|d|={ref.maxdiff(state, want):.3g}")
+    wf = must(lambda: SymbolicSimulator().get_wavefunction(c, init.copy()), "get_wavefunction(init)")
+    a = np.asarray(wf.amplitudes, dtype=complex).reshape(-1)
+    require(ref.close(a, want), lambda: f"{n} qubits: simulator state differs, max|d|={ref.maxdiff(a, want):.3g}")
+    # one column of the circuit's matrix
+    if n <= 10 and spec["sseed"] < 0:
+        U = ref.npm(must(c.to_unitary, "to_unitary"))
+        col = (-spec["sseed"] - 1) % (2 ** n)
+        require(U.shape == (2 ** n, 2 ** n) and ref.close(U[:, col], want), lambda: f"{n} qubits: column {col} of to_unitary differs, max|d|={ref.maxdiff(U[:, col], want):.3g}")
+    span = max(max(o["q"]) - min(o["q"]) for o in spec["ops"])
+    cl = ["n:%d" % n] + (["span>=8"] if any(len(o["q"]) >= 2 and max(o["q"]) - min(o["q"]) >= 8 for o in spec["ops"]) else [])
+    return {"classes": cl, "nontrivial": "span>=8" in cl}
 
 
 # ------------------------------------------------------------------ (d) base-class simulator, any native split
@@ -425,6 +472,8 @@ SUBCHECKS = [
              rule="SymbolicSimulator.get_wavefunction with given and default initial state, phase-only operations interleaved in a third of the circuits"),
     SubCheck("symbolic_unitary", o_symbolic, strategy=symbolic_specs, examples=(150, 600), shards=(4, 12), fork_timeout=40,
              rule="circuits in which 1-4 gate parameters are free symbols: to_unitary / lifted_matrix evaluated at the symbols' values vs the closed-form product of the numeric circuit; non-trivial = a symbolic multi-qubit gate on a non-ascending tuple"),
+    SubCheck("wide_apply", o_wide, strategy=wide_specs, examples=(12, 60), shards=(8, 16), fork_timeout=120,
+             rule="registers of 9-10 (11 thorough) qubits, 1-3 gates whose index tuples span the register: op.apply fold, the bundled simulator and one column of to_unitary vs the state-vector reference; non-trivial = a multi-qubit gate spanning >= 9 qubits"),
     SubCheck("native_split", o_split, strategy=split_specs, examples=(400, 1500), shards=(3, 12), fork_timeout=20,
              rule="BaseWavefunctionSimulator subclass with drawn native set + MultiPhaseOperations; non-trivial = >=1 native/non-native boundary"),
     SubCheck("concat", o_concat, strategy=concat_specs, examples=(300, 1000), shards=(2, 6), fork_timeout=20,
@@ -437,4 +486,5 @@ for _s in SUBCHECKS[:3]:
     _s.expected_classes = ["permuted", "non_adjacent", "arity3", "arity4", "idle", "wrapped", "custom"]
 SUBCHECKS[2].expected_classes = SUBCHECKS[2].expected_classes + ["multiphase", "multiphase_after_gates"]
 SUBCHECKS[3].expected_classes = ["symbolic_gate_on_permuted_tuple", "symbolic_gate_arity>=3", "mixed_numeric_symbolic", "wrapped"]
-SUBCHECKS[4].expected_classes = ["multiphase", "boundary", "segments>=3"]
+SUBCHECKS[4].expected_classes = ["span>=8"]
+SUBCHECKS[5].expected_classes = ["multiphase", "boundary", "segments>=3"]
